@@ -1,6 +1,11 @@
 // Package utils provides shared utility functions used across the WTF application.
 package utils
 
+import (
+	"os"
+	"path/filepath"
+)
+
 // Min returns the minimum of two integers.
 func Min(a, b int) int {
 	if a < b {
@@ -15,4 +20,39 @@ func Max(a, b int) int {
 		return a
 	}
 	return b
+}
+
+// WriteFileAtomic replaces the file at path with data: it writes a temporary file in
+// the same directory and renames it over path, so that a crash, a full disk or a
+// failed write never leaves a truncated or half-written file behind - the file holds
+// either its previous content or the new one.
+func WriteFileAtomic(path string, data []byte, perm os.FileMode) error {
+	tmp, err := os.CreateTemp(filepath.Dir(path), filepath.Base(path)+".tmp-*")
+	if err != nil {
+		return err
+	}
+	tmpName := tmp.Name()
+	fail := func(err error) error {
+		tmp.Close()
+		os.Remove(tmpName)
+		return err
+	}
+	if _, err := tmp.Write(data); err != nil {
+		return fail(err)
+	}
+	if err := tmp.Chmod(perm); err != nil {
+		return fail(err)
+	}
+	if err := tmp.Sync(); err != nil {
+		return fail(err)
+	}
+	if err := tmp.Close(); err != nil {
+		os.Remove(tmpName)
+		return err
+	}
+	if err := os.Rename(tmpName, path); err != nil {
+		os.Remove(tmpName)
+		return err
+	}
+	return nil
 }
